@@ -1015,7 +1015,7 @@ let sPKI_RECORD_NOT_FOUND =
 (** val sRC_REMOVE_NOTIFIES : bool **)
 
 let sRC_REMOVE_NOTIFIES =
-  false
+  true
 
 type spki_table = { ht : entry hashlin; lst : entry list }
 
